@@ -85,3 +85,9 @@ Theorem C09_two_solves_once : forall U P1 P2 evs1 evs2 st1 w1 st2 w2,
   NoDup (flat_map EncoderCalls.k_cands H) /\ NoDup (flat_map k_deps H) /\
   NoDup (flat_map k_match H) /\ NoDup (flat_map k_nonmatch H).
 Proof. exact enc_two_solves_once. Qed.
+
+(* exactness of a LATER solve on the same solver, as a predicate over the earlier and the current
+   part of the provider-call history, with its verified checker *)
+Theorem C09_exact_next_checker : forall U P G hprev hcur,
+  exact_nextb U P G hprev hcur = true <-> ExactNext U P G hprev hcur.
+Proof. exact exact_nextb_spec. Qed.
